@@ -259,7 +259,7 @@ def execute(trace):
     elif r.stdout_error is not None:
         res.violate('pipeline', 'stdout-error', error=digest.canon_exc(r.stdout_error), **detail)
     else:
-        ok = compare_with_pipeline(r, expected, opts, res, detail, out_detail)
+        ok = compare_with_pipeline(r, expected, opts, res, detail, out_detail, ngraphs=len(trace['graphs']))
         if r.exit != 0:
             res.violate('exit', 'nonzero-without-check', got=r.exit, **detail, **out_detail(r))
 
@@ -401,7 +401,7 @@ def _content(g):
             'metadata': [[a, b] for a, b in g.metadata.items()]}
 
 
-def compare_with_pipeline(r, expected, opts, res, detail, out_detail):
+def compare_with_pipeline(r, expected, opts, res, detail, out_detail, ngraphs=None):
     want = [s for s, _ in expected]
     if opts.get('triples'):
         got = splitter.tokens(r.stdout)
@@ -411,6 +411,10 @@ def compare_with_pipeline(r, expected, opts, res, detail, out_detail):
             return False
         return True
     blocks, seps, tail, problems = splitter.split_blocks(r.stdout)
+    if ngraphs is not None and len(blocks) != ngraphs:
+        res.violate('pipeline', 'not-one-output-graph-per-input-graph', input_graphs=ngraphs, output_graphs=len(blocks),
+                    **detail, **out_detail(r))
+        return False
     if problems or len(blocks) != len(want):
         res.violate('pipeline', 'graph-count-or-shape', problems=problems, blocks=len(blocks),
                     expected_graphs=len(want), expected=want, **detail, **out_detail(r))
